@@ -204,6 +204,13 @@ def r3_lookup(prog, rep: Report, im):
               f"self.{sorted_arr} / self.{perm_arr} are not built index-aligned and ascending by interval end from {built_from}",
               scenario="the bisect runs over an unsorted or misaligned array: keys inside an interval raise KeyError or "
                        "return another interval's value")
+    inits = [val for t, val, st_ in __import__("sa.util", fromlist=["iter_stores"]).iter_stores(init.node)
+             if dotted(t) == (init.self_name, sorted_arr) and val is not None]
+    plain = all(isinstance(v, ast.List) or (isinstance(v, ast.Call) and src(v.func) == "list") or isinstance(v, ast.ListComp) for v in inits)
+    rep.check("C16.R3", init, "ends-container", bool(inits) and plain, f"self.{sorted_arr} is a plain list (ends stored as given)",
+              f"self.{sorted_arr} is initialised as `{src(inits[0]) if inits else '?'}`: a typed container converts the interval ends "
+              f"(e.g. array('d') rounds ints above 2**53 and Fractions), the key equal to such an end is no longer found",
+              scenario="ImmutIntervalMap({(0, 9007199254740993): 'low'})[9007199254740993] raises KeyError")
     rep.check("C16.R3", f, "bisect", fn == "bisect.bisect_left",
               f"bisect_left(self.{sorted_arr}, key): smallest end >= key",
               f"{fn} over the sorted ends: a key equal to an interval end selects the next interval",
